@@ -10,6 +10,7 @@ import BtcHd.Model.Wallet
 import BtcHd.Model.History
 import BtcHd.Model.Cli
 import BtcHd.Model.JsonText
+import BtcHd.Model.Extra
 import BtcHd.Prims.Sha
 import BtcHd.Prims.Secp256k1
 
@@ -179,6 +180,11 @@ def unwallet (s : String) : Option (RP × Option Wallet.Wallet) :=
     let sd ← unstr sd; let t ← unbool t
     let P := primsWith none []
     pure (P, Wallet.fromSeedHex P sd t)
+  | ["raw", sd, nt, wt] => do
+    -- the class constructor called directly: node flag and wallet flag given separately
+    let sd ← unhex sd; let nt ← unbool nt; let wt ← unbool wt
+    let P := primsWith none []
+    pure (P, (Bip32.masterKey P sd nt).map fun m => ⟨m, wt, none, none⟩)
   | ["xkey", k] => do
     let k ← unstr k
     let P := primsWith none []
@@ -234,6 +240,9 @@ def unop (s : String) : Option History.Op :=
   | ["rep", acct, a, b] => do pure (.report (← unnat acct) (← unnat a) (← unnat b))
   | ["was"] => some .wasabi
   | ["root"] => some .rootKey
+  -- `nw:<t>`: the client builds ANOTHER wallet object over the same root node (network flag t) and then asks the
+  -- first wallet for its root key: in the model constructing an object is not a request, so this is `rootKey`
+  | ["nw", _] => some .rootKey
   | _ => none
 
 def outS : History.Out → String
@@ -244,6 +253,31 @@ def outS : History.Out → String
   | .pair a b => "p" ++ strS a ++ " " ++ strS b
   | .json j => jsonS j
   | .handle g => "g" ++ toString g
+
+/-! ### EXTRA: helpers -/
+
+/-- a hash inside a comma list: `h` followed by its hex (so that the empty byte string is `h`) -/
+def hashS (b : Bytes) : String := "h" ++ String.ofList (toHex b)
+
+def unhash (s : String) : Option Bytes :=
+  match s.toList with
+  | 'h' :: r => if r.isEmpty then some [] else unhex (String.ofList r)
+  | _ => none
+
+def unindent (s : String) : Option (Option Nat) :=
+  if s = "-" then some none else (unnat s).map some
+
+/-- the `data` argument of `json` / `pprint` / `export_wallet`: `-` = `None`, `empty` = `{}`,
+`acct:a:b` = `self.generate(account=acct, interval=(a, b))` (outer `none` = bad-op, middle
+`none` = `generate` raised) -/
+def paperData (P : RP) (w : Wallet.Wallet) (s : String) : Option (Option (Option Wallet.Json)) :=
+  if s = "-" then some (some none)
+  else if s = "empty" then some (some (some (.obj [])))
+  else match s.splitOn ":" with
+    | [acct, a, b] => do
+      let acct ← unnat acct; let a ← unnat a; let b ← unnat b
+      pure ((Wallet.generate P w acct a b).map some)
+    | _ => none
 
 /-! ### the operations -/
 
@@ -466,6 +500,107 @@ def step (line : String) : String :=
         | "hex" => Bip85.hex P w.master param index
         | "pwd" => Bip85.pwd P w.master param index
         | _ => none))
+  -- EXTRA: helper.py
+  | ["chunks", n, xs] => orBad do
+      let n ← unnat n; let xs ← unlist unnat xs
+      pure (optS (fun (cs : List (List Nat)) =>
+        if cs.isEmpty then "-" else "/".intercalate (cs.map (listS toString))) (Extra.chunks n xs))
+  | ["merkle_parent", a, b] => orBad do
+      let a ← unhex a; let b ← unhex b
+      pure (okS (hexS (Extra.merkleParent P0.hash256 a b)))
+  | ["merkle_level", hs] => orBad do
+      let hs ← unlist unhash hs
+      pure (optS (fun (r : List Bytes × List Bytes) => listS hashS r.1 ++ " " ++ listS hashS r.2)
+        (Extra.merkleParentLevelMut P0.hash256 hs))
+  | ["merkle_root", hs] => orBad do
+      let hs ← unlist unhash hs
+      pure (optS (fun r => hashS r ++ " " ++ listS hashS (Extra.merkleRootArg hs))
+        (Extra.merkleRoot P0.hash256 hs))
+  | ["b32_addr", s] => orBad do
+      let s ← unstr s; pure (optS hexS (Extra.bech32DecodeAddress s))
+  -- EXTRA: script.py
+  | ["scr_add", a, b] => orBad do
+      let a ← unlist uncmd a; let b ← unlist uncmd b
+      let cs := Extra.scriptAdd a b
+      pure (okS (listS cmdS cs ++ " " ++
+        (match Script.rawSerialize cs with | some r => hexS r | none => "err")))
+  | ["scr_eq", a, b] => orBad do
+      let a ← unlist uncmd a; let b ← unlist uncmd b
+      pure (okS (boolS (Extra.scriptEq a b)))
+  | ["scr_repr", a] => orBad do
+      let a ← unlist uncmd a; pure (okS (strS (Extra.scriptRepr a)))
+  -- EXTRA: wallet_utils.py
+  | ["ver_list", which] => orBad do
+      let l ← match which with
+        | "main" => some Extra.mainnetVersions
+        | "test" => some Extra.testnetVersions
+        | "prv" => some Extra.prvVersions
+        | "pub" => some Extra.pubVersions
+        | _ => none
+      pure (okS (listS toString l))
+  | ["ver_keys", name] => orBad do
+      let name ← unstr name
+      let k := if name = "PRV".toList then 0 else if name = "PUB".toList then 1 else 2
+      pure (optS (listS toString) (Extra.keyVersions k))
+  | ["ver_data", bip] => orBad do
+      let d ← match bip with
+        | "44" => some Extra.bip44Data
+        | "49" => some Extra.bip49Data
+        | "84" => some Extra.bip84Data
+        | _ => none
+      pure (okS (listS (fun (e : List Char × Nat) => strS e.1 ++ ":" ++ toString e.2) d))
+  | ["path_pred", s] => orBad do
+      let s ← unstr s
+      pure (optS (fun (p : Path.Path) => " ".intercalate
+          ([Extra.bip44 p, Extra.bip49 p, Extra.bip84 p, Extra.bitcoinTestnet p,
+            Extra.bitcoinMainnet p, Extra.externalChain p].map boolS ++ [toString (Extra.pathBip p)]))
+        (Path.parse s))
+  | ["path_eq", a, b] => orBad do
+      let a ← unstr a; let b ← unstr b
+      pure (optS boolS (do
+        let pa ← Path.parse a; let pb ← Path.parse b; pure (Extra.pathEq pa pb)))
+  | ["list_get", xs, i] => orBad do
+      let xs ← unlist unnat xs; let i ← unnat i
+      pure (okS (match Extra.listGet xs i with | none => "none" | some v => toString v))
+  -- EXTRA: bip85.py / base_wallet.py / keys.py
+  | ["b85_from_xprv", s, t] => orBad do
+      let s ← unstr s; let t ← unbool t
+      pure (optS (fun (o : Extra.Bip85Obj) => nodeS o.masterNode ++ " " ++ boolS o.testnet)
+        (Extra.bip85FromXprv P0 s t))
+  | ["b85_eq", n1, t1, n2, t2] => orBad do
+      let n1 ← unnode n1; let t1 ← unbool t1; let n2 ← unnode n2; let t2 ← unbool t2
+      pure (okS (boolS (Extra.bip85Eq ⟨n1, t1⟩ ⟨n2, t2⟩)))
+  | ["wallet_eq", w1, w2] => orBad do
+      let (_, w1) ← unwallet w1; let (_, w2) ← unwallet w2
+      pure (optS boolS (do let a ← w1; let b ← w2; pure (Extra.walletEq a b)))
+  | ["priv_eq", a, b] => orBad do
+      let a ← unhex a; let b ← unhex b
+      pure (optS boolS (do
+        let k1 ← Keys.mkPriv realCurve a; let k2 ← Keys.mkPriv realCurve b
+        pure (Extra.privKeyEq k1 k2)))
+  | ["pub_eq", a, b] => orBad do
+      let a ← unhex a; let b ← unhex b
+      pure (optS boolS (do
+        let p ← Real.Secp.parse a; let q ← Real.Secp.parse b
+        pure (Extra.pubKeyEq realCurve p q)))
+  -- EXTRA: paper_wallet.py texts
+  | ["paper_text", kind, w, data, ind] => orBad do
+      let (P, w) ← unwallet w
+      let ind ← unindent ind
+      let f ← match kind with
+        | "json" => some Extra.jsonText
+        | "pprint" => some Extra.pprintText
+        | "export" => some Extra.exportWalletText
+        | _ => none
+      match w with
+      | none => pure "err"
+      | some w =>
+        let d ← paperData P w data
+        pure (optS strS (d.bind fun d => f P w d ind))
+  | ["wasabi_text", w, ind] => orBad do
+      let (P, w) ← unwallet w
+      let ind ← unindent ind
+      pure (optS strS (w.bind fun w => Extra.wasabiJsonText P w ind))
   | ["hist", w, ops] => orBad do
       let (P, w) ← unwallet w
       let ops ← (ops.splitOn ";").mapM unop
